@@ -205,7 +205,7 @@ def correspond(ctx):
                 params = set(est.get_params(deep=False))
             except Exception:  # noqa: BLE001  (get_params itself failing is a C01 matter)
                 params = set()
-            observed = {n for _, n, _ in tr.events if n not in params}
+            observed = {ev[1] for ev in tr.events if ev[3] == id(est) and ev[1] not in params}
             corr.case((e.name, variant), nontrivial=err is None,
                       sample={"estimator": e.name, "rho": cs["rho"], "definitely_rewritten": sorted(definite),
                               "observed_writes": sorted(observed)} if len(corr.samples) < 4 else None)
